@@ -44,8 +44,8 @@ def configure(cfg):
                  known=known_words(CFG.get("key") or model_key(CFG["version"], shape, oc)))
 
 
-POOL = [S.q('a'), S.q('b'), S.q('c'), S.q('m'), S.q('z'), '{ext}x', 'u']
-#        declared a b c, substitution member m, undeclared z in tns, foreign-namespace x, no-namespace u
+POOL = [S.q('a'), S.q('b'), S.q('c'), S.q('m'), S.q('z'), '{ext}x', 'u', S.q('l')]
+#        declared a b c, substitution member m, undeclared z in tns, foreign-namespace x, no-namespace u, transitive member l
 
 
 def pre_word(fn, **kw):
@@ -180,7 +180,8 @@ def models(version):
         for m in comp:
             out.append({"key": model_key(version, m), "shape": m, "open": None, "family": "competition"})
         for base in (Sq(E('a'), E('b', 0, 1)), C(E('a'), E('b'), mn=0, mx=None), Sq(E('a', 0, 2), Sq(E('b'), E('c', 0, 1), mn=0, mx=1))):
-            for oc in (("interleave", "any"), ("interleave", "other"), ("suffix", "any"), ("suffix", "other"), ("interleave", "any", "skip"), ("suffix", "other", "skip")):
+            for oc in (("interleave", "any"), ("interleave", "other"), ("suffix", "any"), ("suffix", "other"), ("interleave", "any", "skip"), ("suffix", "other", "skip"),
+                       ("interleave", "any", "lax", "ext"), ("suffix", "other", "lax", "ext")):
                 out.append({"key": model_key(version, base, oc), "shape": base, "open": list(oc), "family": "open"})
     return out
 
@@ -226,7 +227,7 @@ def obligations(tier, seed):
         n, pool, to = 4, 4, 240
         per = {"catalogue": 12, "all": 2, "competition": 5, "open": 4}
     else:
-        n, pool, to = 4, 7, 1800
+        n, pool, to = 4, 8, 1800
         per = {"catalogue": 120, "all": 7, "competition": 5, "open": 18}
     for version in ("1.0", "1.1"):
         ms = models(version)
@@ -236,11 +237,18 @@ def obligations(tier, seed):
         for f, k in per.items():
             lst = fam.get(f, [])
             chosen = rnd.sample(lst, min(k, len(lst)))
+            if quick and f == "catalogue":
+                # two models with a substitution head are always part of the quick tier (both versions)
+                heads = [m for m in lst if m["key"].split('|')[1] in ("(h, b+)", "(h | a?)")]
+                chosen = heads + [m for m in chosen if m not in heads][:max(0, k - len(heads))]
             if quick and f == "open":
                 # the skip variants are always part of the quick tier
-                chosen = [m for m in lst if m["open"] and len(m["open"]) > 2][:2] + chosen[:max(0, k - 1)]
+                special = [m for m in lst if m["open"] and len(m["open"]) > 2]
+                chosen = [m for m in special if len(m["open"]) == 3][:1] + [m for m in special if len(m["open"]) == 4][:1] + chosen[:max(0, k - 2)]
             for m in chosen:
                 n_, pool_ = (3, 5) if (quick and f == "open") else (n, pool)          # open content: an undeclared name in the alphabet
+                if quick and "'h'" in repr(m["shape"]):
+                    n_, pool_ = 3, 8          # a substitution head: the transitive member l must be in the alphabet
                 out.append({
                     "name": "word/%s" % m["key"].replace(" ", ""),
                     "fn": "h_word", "pre": "pre_word", "args": [["n", "int"]] + [["w%d" % k2, "int"] for k2 in range(n_)],
